@@ -322,7 +322,15 @@ class WriterRun:
             kinds = set()
             if isinstance(v, Enum):
                 kinds = {"Ok" if i == 0 else "Err" for i in v.variants}
-            et = [x[1] for x in e.tag if x[0] == "err"]
+            et = [x[1] for x in e.tag if x[0] == "err" and x[1] == "<child>"]
+            if not et and isinstance(v, Enum) and 1 in v.variants and v.variants[1] and isinstance(v.variants[1][0], Enum):
+                # which error: read off the returned value (an error value may be built eagerly on a path that then succeeds)
+                ev = v.variants[1][0]
+                info = self.eng.adt_info(ev.path)
+                names = [info["variants"][i]["name"] if info else str(i) for i in sorted(ev.variants)]
+                et = ["|".join(names)]
+            if not et:
+                et = [x[1] for x in e.tag if x[0] == "err"]
             rest = {}
             for w, f in (("wb", "working_buffer"), ("ot", "open_tags")):
                 rest[w] = e.entails_eq(LinForm.var((cell, (self.fx[f], "len"))) - LinForm.var((("G", w + "0"), ())))
